@@ -1,5 +1,5 @@
 /-
-  Helper lemmas for C07: `gapBeforeLeftover`, `inputPredecessor`, `discardStart` / `discardEnd`.
+  Helper lemmas for C07: `gapsBeforeLeftover`, `inputPredecessor`, `discardStart` / `discardEnd`.
 -/
 import AgpTpf.Proofs.C01Fuse
 namespace AgpTpf.C07
@@ -12,54 +12,60 @@ def FacingEnd (last prev : Fragment) : Prop :=
 
 instance (last prev : Fragment) : Decidable (FacingEnd last prev) := by unfold FacingEnd; infer_instance
 
-theorem gapBeforeLeftover_eq (jg : Option Gap) (built : List Row) (pred : Option (Fragment × Option Gap)) :
-    gapBeforeLeftover jg built pred =
-      match pred, built.getLast? with
-      | some (prev, gap), some (.frag last) => if FacingEnd last prev then gap else jg
-      | _, _ => jg := by
-  unfold gapBeforeLeftover FacingEnd
-  rw [← List.head?_reverse]
-  cases pred with
-  | none => rfl
-  | some p =>
-    obtain ⟨prev, gap⟩ := p
-    cases built.reverse with
-    | nil => rfl
-    | cons x t => cases x <;> rfl
+/-- the default separator: the join gap as a row, if one is configured -/
+def joinRows (jg : Option Gap) : List Row := match jg with | some g => [Row.gap g] | none => []
 
-theorem gapBeforeLeftover_none_iff (j : Gap) (built : List Row) (pred : Option (Fragment × Option Gap)) :
-    gapBeforeLeftover (some j) built pred = none ↔
-      ∃ prev last, pred = some (prev, none) ∧ built.getLast? = some (.frag last) ∧ FacingEnd last prev := by
-  rw [gapBeforeLeftover_eq]
+theorem gapsBeforeLeftover_eq (jg : Option Gap) (built : List Row) (pred : Option (Fragment × List Gap)) :
+    gapsBeforeLeftover jg built pred =
+      if built = [] then []
+      else match pred, built.getLast? with
+        | some (prev, gaps), some (.frag last) => if FacingEnd last prev then gaps.map Row.gap else joinRows jg
+        | _, _ => joinRows jg := by
+  unfold gapsBeforeLeftover FacingEnd joinRows
+  rw [← List.head?_reverse]
+  by_cases hb : built = []
+  · subst hb; rfl
+  · have hb' : ¬ built.isEmpty = true := by simpa using hb
+    rw [if_neg hb', if_neg hb]
+    cases pred with
+    | none => rfl
+    | some p =>
+      obtain ⟨prev, gaps⟩ := p
+      cases built.reverse with
+      | nil => rfl
+      | cons x t => cases x <;> rfl
+
+/-- With a join gap configured and something built already, a left-over scaffold is appended with NO separator row
+    only when the last built row is the facing end of its recorded input predecessor and the input had no gap row
+    between them. -/
+theorem gapsBeforeLeftover_nil_iff (j : Gap) (built : List Row) (hne : built ≠ []) (pred : Option (Fragment × List Gap)) :
+    gapsBeforeLeftover (some j) built pred = [] ↔
+      ∃ prev last, pred = some (prev, []) ∧ built.getLast? = some (.frag last) ∧ FacingEnd last prev := by
+  rw [gapsBeforeLeftover_eq, if_neg hne]
   constructor
   · intro h
     split at h
-    · next prev gap last hl =>
+    · next prev gaps last hl =>
       split at h
-      · next hf => subst h; exact ⟨prev, last, rfl, hl, hf⟩
-      · cases h
-    · cases h
+      · next hf =>
+        have : gaps = [] := by simpa using h
+        subst this; exact ⟨prev, last, rfl, hl, hf⟩
+      · simp [joinRows] at h
+    · simp [joinRows] at h
   · rintro ⟨prev, last, rfl, hl, hf⟩
     rw [hl]; simp [hf]
 
-/-- every gap `gapBeforeLeftover` can return is the join gap or the recorded input gap -/
-theorem gapBeforeLeftover_source (jg : Option Gap) (built : List Row) (pred : Option (Fragment × Option Gap)) (g : Gap)
-    (h : gapBeforeLeftover jg built pred = some g) :
-    jg = some g ∨ ∃ prev, pred = some (prev, some g) := by
-  rw [gapBeforeLeftover_eq] at h
-  split at h
-  · next prev gap last hl =>
-    split at h
-    · subst h; exact Or.inr ⟨prev, rfl⟩
-    · exact Or.inl h
-  · exact Or.inl h
+/-- every row `gapsBeforeLeftover` returns is a gap row: the join gap or one of the recorded input gap rows -/
+theorem gapsBeforeLeftover_source (jg : Option Gap) (built : List Row) (pred : Option (Fragment × List Gap)) :
+    ∀ x ∈ gapsBeforeLeftover jg built pred,
+      ∃ g, x = Row.gap g ∧ (jg = some g ∨ ∃ prev gaps, pred = some (prev, gaps) ∧ g ∈ gaps) :=
+  C01.gapsBeforeLeftover_rows jg built pred
 
 /-! ### `input_predecessor` -/
 
-theorem inputPredecessor_go_spec (l : List Row) (acc : Option Gap) (f : Fragment) (g : Option Gap)
-    (h : inputPredecessor.go acc l = some (f, g)) :
-    ∃ k, l[k]? = some (.frag f) ∧ (∀ j, j < k → ∃ gg, l[j]? = some (.gap gg)) ∧
-      g = (match acc with | some a => some a | none => (l.take k).head?.bind (fun r => match r with | .gap x => some x | .frag _ => none)) := by
+theorem inputPredecessor_go_spec (l : List Row) (acc : List Gap) (f : Fragment) (gaps : List Gap)
+    (h : inputPredecessor.go acc l = some (f, gaps)) :
+    ∃ k, l[k]? = some (.frag f) ∧ (l.take k).reverse ++ acc.map Row.gap = gaps.map Row.gap := by
   induction l generalizing acc with
   | nil => simp [inputPredecessor.go] at h
   | cons x t ih =>
@@ -67,52 +73,43 @@ theorem inputPredecessor_go_spec (l : List Row) (acc : Option Gap) (f : Fragment
     | frag f' =>
       simp only [inputPredecessor.go, Option.some.injEq, Prod.mk.injEq] at h
       obtain ⟨rfl, rfl⟩ := h
-      refine ⟨0, rfl, fun j hj => by omega, ?_⟩
-      cases acc <;> simp
+      exact ⟨0, rfl, by simp⟩
     | gap g' =>
       simp only [inputPredecessor.go] at h
-      obtain ⟨k, h1, h2, h3⟩ := ih _ h
-      refine ⟨k + 1, by simpa using h1, ?_, ?_⟩
-      · intro j hj
-        cases j with
-        | zero => exact ⟨g', rfl⟩
-        | succ j' => simpa using h2 j' (by omega)
-      · rw [h3]; cases acc <;> simp
+      obtain ⟨k, h1, h2⟩ := ih _ h
+      refine ⟨k + 1, by simpa using h1, ?_⟩
+      rw [← h2]; simp
 
-/-- the recorded predecessor has no gap exactly when the fragment row directly in front is that predecessor -/
-theorem inputPredecessor_none_gap (rows : List Row) (i : Nat) (f : Fragment)
-    (h : inputPredecessor rows i = some (f, none)) (hi : i ≤ rows.length) :
-    0 < i ∧ rows[i - 1]? = some (.frag f) := by
+/-- `input_predecessor(scaffold, i) = (f, gaps)`: `f` is a fragment row `j < i` and `gaps` are exactly the rows
+    `j+1 … i-1` (all gap rows, in scaffold order) -/
+theorem inputPredecessor_spec (rows : List Row) (i : Nat) (f : Fragment) (gaps : List Gap)
+    (h : inputPredecessor rows i = some (f, gaps)) (hi : i ≤ rows.length) :
+    ∃ j, j < i ∧ rows[j]? = some (.frag f) ∧ (rows.drop (j + 1)).take (i - (j + 1)) = gaps.map Row.gap := by
   unfold inputPredecessor at h
-  obtain ⟨k, h1, h2, h3⟩ := inputPredecessor_go_spec _ _ _ _ h
-  simp only at h3
-  have hk0 : k = 0 := by
-    cases k with
-    | zero => rfl
-    | succ k' =>
-      exfalso
-      obtain ⟨gg, hg⟩ := h2 0 (by omega)
-      cases hh : (List.take i rows).reverse with
-      | nil => rw [hh] at hg; simp at hg
-      | cons x t =>
-        rw [hh] at hg h3
-        simp only [List.getElem?_cons_zero, Option.some.injEq] at hg
-        subst hg
-        simp [List.take_succ_cons] at h3
-  subst hk0
-  rw [List.getElem?_reverse] at h1
-  · simp only [List.length_take, Nat.sub_zero] at h1
-    have hmin : min i rows.length = i := by omega
-    rw [hmin, List.getElem?_take] at h1
-    split at h1
-    · next hlt => exact ⟨by omega, h1⟩
-    · cases h1
-  · cases hh : (List.take i rows).reverse with
-    | nil => rw [hh] at h1; simp at h1
-    | cons x t =>
-      have : ((List.take i rows).reverse).length = (x :: t).length := by rw [hh]
-      simp only [List.length_reverse] at this
-      rw [this]; simp
+  obtain ⟨k, h1, h2⟩ := inputPredecessor_go_spec _ _ _ _ h
+  simp only [List.map_nil, List.append_nil] at h2
+  have hlen : (List.take i rows).length = i := by simp; omega
+  have hk : k < i := by
+    have := (List.getElem?_eq_some_iff.mp h1).1
+    simpa [hlen] using this
+  rw [List.getElem?_reverse (by rw [hlen]; exact hk), hlen, List.getElem?_take, if_pos (by omega)] at h1
+  refine ⟨i - 1 - k, by omega, h1, ?_⟩
+  rw [← h2, List.take_reverse, List.reverse_reverse, hlen, List.drop_take]
+  have e1 : i - 1 - k + 1 = i - k := by omega
+  have e2 : i - (i - k) = k := by omega
+  rw [e1, e2]
+
+/-- the recorded predecessor has no gap rows exactly when the fragment row directly in front is that predecessor -/
+theorem inputPredecessor_none_gap (rows : List Row) (i : Nat) (f : Fragment)
+    (h : inputPredecessor rows i = some (f, [])) (hi : i ≤ rows.length) :
+    0 < i ∧ rows[i - 1]? = some (.frag f) := by
+  obtain ⟨j, hj, hf, hg⟩ := inputPredecessor_spec rows i f [] h hi
+  have hlen := congrArg List.length hg
+  simp only [List.length_take, List.length_drop, List.map_nil, List.length_nil] at hlen
+  have hjl : j < rows.length := (List.getElem?_eq_some_iff.mp hf).1
+  have : j = i - 1 := by omega
+  subst this
+  exact ⟨by omega, hf⟩
 
 /-! ### `discard_start` / `discard_end` never leave a terminal gap -/
 
